@@ -18,6 +18,7 @@ import (
 type effects struct {
 	strong    map[string]bool // heap variables that may be written at existing objects
 	all       bool            // an unknown callee: anything may be written
+	allNonDoc bool            // callees with inferred summaries: everything but the document heap may be written
 	allocates bool
 	cells     map[*ssa.Alloc]bool
 }
@@ -285,6 +286,9 @@ func (g *gen) enterLoop(li *loopInfo, b *ssa.BasicBlock, st *state, phis []*ssa.
 	}
 	g.buildAutoInvariants(li, b, phis, entryVals, st)
 	li.entryTop = st.top
+	iterName := fmt.Sprintf("ITER.%d", li.ordinal)
+	g.heapSorts[iterName] = "Int"
+	st.heap[iterName] = "0"
 	// 1. invariants hold on entry
 	if g.opts.functional || g.opts.safety || g.opts.frames {
 		entryEnv := g.pointEnv(b, st, func(p *ssa.Phi) string { return entryVals[p] })
@@ -302,13 +306,17 @@ func (g *gen) enterLoop(li *loopInfo, b *ssa.BasicBlock, st *state, phis []*ssa.
 	}
 	_ = st.top
 	if ef.all {
-		g.newEpoch(st, func(name, r string) string { return "false" }, true)
+		g.newEpoch(st, func(name, r string) string { return g.privateKeep(name, r) }, true)
 	} else {
 		strong := ef.strong
 		alloc := ef.allocates
+		nonDoc := ef.allNonDoc
 		g.newEpoch(st, func(name, r string) string {
 			if strong[name] {
 				return "false"
+			}
+			if nonDoc && !g.isDocHeap(name) {
+				return g.privateKeep(name, r)
 			}
 			if !alloc || r == "" {
 				return "true"
@@ -316,9 +324,12 @@ func (g *gen) enterLoop(li *loopInfo, b *ssa.BasicBlock, st *state, phis []*ssa.
 			return "weak"
 		}, alloc)
 	}
+	itc := g.newConst(iterName, "Int")
+	g.assert(app(">=", itc, "0"))
+	st.heap[iterName] = itc
 	var cellList []*ssa.Alloc
 	for a := range st.cells {
-		if ef.cells[a] || (g.escaped[a] && (ef.all || ef.allocates)) {
+		if ef.cells[a] || (g.escaped[a] && (ef.all || ef.allNonDoc || ef.allocates)) {
 			cellList = append(cellList, a)
 		}
 	}
@@ -399,6 +410,9 @@ func (g *gen) closeLoop(li *loopInfo, u *ssa.BasicBlock, st *state) {
 			idx = i
 		}
 	}
+	st = st.clone()
+	iterName := fmt.Sprintf("ITER.%d", li.ordinal)
+	st.heap[iterName] = app("+", g.heapVar(li.hstate, iterName, "Int"), "1")
 	e := g.pointEnv(h, st, func(p *ssa.Phi) string { return g.val(st, p.Edges[idx]) })
 	g.curBlock = u
 	g.checkInvariants(li, e, "inv-preserved", h)
